@@ -1,10 +1,14 @@
 import PsyVerif.Model.ArgOrder
 /-! # C21: the documented argument-ordering rules
 
-`docOrder` formalises doc/user_guide/dynamo0p3.rst, section "Rules for General-Purpose Kernels"
-(rules 1–7), read literally and independently of the code.  Scope: kernels that operate on cell
-columns, have no CMA operator, are not inter-grid and are not one of the two boundary-condition
-kernels recognised by name (those have their own sections, or none); `none` outside that scope.
+`docOrder` formalises the sub-sections of doc/user_guide/dynamo0p3.rst, "Subroutine": "Rules for
+General-Purpose Kernels" (rules 1–7), "Rules for CMA Kernels" (Assembly 1–6, Application/
+Inverse-Application 1–6, Matrix-Matrix 1–3), "Rules for Inter-Grid Kernels" (1–6) and "Rules for
+Domain Kernels", each read literally and independently of the code.  `docSection` says which
+sub-section applies; `none` (out of scope) for the two boundary-condition kernels recognised by
+name (no documented rules), for user-supplied DoF kernels (the guide says they are not implemented)
+and for CMA / inter-grid / domain kernels that request basis functions, reference-element or mesh
+properties (their sub-sections are silent about those).
 
 Reading choices (stated as assumptions of the check):
 * rule 3.2.1–3.2.4 are taken in the order printed: size, [max branch length], dofmap, [direction];
@@ -53,6 +57,9 @@ def docRefElement (props : List RefProp) : List Atom :=
   let ps := dedup props
   (dedup (ps.map RefProp.faces)).map Atom.nfacesRe ++ ps.map Atom.refArray
 
+/-- rules 5.1-5.3: the normals arrays are documented as "rank-2 ``integer`` array of kind ``i_def``" -/
+def docRefArrayTy : Ty := .integer
+
 /-- rule 6 -/
 def docMesh (md : Metadata) : List Atom :=
   if md.mesh.contains .adjacentFace then
@@ -68,15 +75,118 @@ def docQuadrature (md : Metadata) : List Atom :=
     | .edge => [.nedgesQr, .npXyz, .weightsXyz]
     | .evaluator => []
 
+/-- "Rules for General-Purpose Kernels", rules 1-7 -/
+def docGeneral (md : Metadata) : List Atom :=
+  (if md.hasLma then [Atom.cell] else []) ++ [Atom.nlayers] ++
+  md.args.flatMap docArg ++
+  (dedup (md.args.flatMap Arg.spaces)).flatMap (docSpace md) ++
+  docRefElement md.refelem ++ docMesh md ++ docQuadrature md
+
+/-! ### "Rules for CMA Kernels" -/
+
+/-- Assembly rule 5.2 (and "see Rule 5 of CMA Assembly kernels" in the other two sub-sections):
+the matrix, then nrow, [ncol if the from-space is not the to-space], bandwidth, alpha, beta,
+gamma_m, gamma_p -/
+def docCmaOperator (acc : Access) (to frm : FS) : List Atom :=
+  [Atom.cmaMatrix acc, .cmaParam .nrow] ++ (if to != frm then [Atom.cmaParam .ncol] else []) ++
+  [.cmaParam .bandwidth, .cmaParam .alpha, .cmaParam .beta, .cmaParam .gammaM, .cmaParam .gammaP]
+
+/-- Assembly rule 5: an LMA operator is just the array (the single `ncell_3d` is rule 4) -/
+def docAssemblyArg : Arg → List Atom
+  | .op acc _ _ => [.opData acc]
+  | .cma acc t f => docCmaOperator acc t f
+  | a => docArg a
+
+/-- Assembly rule 6 -/
+def docAssemblySpace (md : Metadata) (fs : FS) : List Atom :=
+  [Atom.ndf] ++ (if md.fieldOnSpace fs then [Atom.undf, Atom.dofmap] else []) ++
+  (if md.cmaOnSpace fs then [Atom.bandedMap] else [])
+
+/-- Assembly rules 1-6 -/
+def docAssembly (md : Metadata) : List Atom :=
+  [Atom.cell, .nlayers, .ncell2d, .opNcell3d] ++ md.args.flatMap docAssemblyArg ++
+  (dedup (md.args.flatMap Arg.spaces)).flatMap (docAssemblySpace md)
+
+def docApplyArg : Arg → List Atom
+  | .cma acc t f => docCmaOperator acc t f
+  | .field dt _ acc _ _ _ => [.fieldData dt acc]
+  | _ => []
+
+/-- Application rules 5 and 6: the indirection map of the to-space, then that of the from-space if
+it is a different space -/
+def docIndirection : List Arg → List Atom
+  | [] => []
+  | .cma _ t f :: _ => [Atom.indirectionMap] ++ (if t != f then [Atom.indirectionMap] else [])
+  | _ :: rest => docIndirection rest
+
+/-- Application / inverse application rules 1-6 -/
+def docApply (md : Metadata) : List Atom :=
+  [Atom.cell, .ncell2d] ++ md.args.flatMap docApplyArg ++
+  (dedup (md.args.flatMap Arg.spaces)).flatMap (fun _ => [Atom.ndf, .undf, .dofmap]) ++
+  docIndirection md.args
+
+def docMatrixMatrixArg : Arg → List Atom
+  | .cma acc t f => docCmaOperator acc t f
+  | .scalar dt acc => [.scalar dt acc]
+  | _ => []
+
+/-- Matrix-matrix rules 1-3 -/
+def docMatrixMatrix (md : Metadata) : List Atom :=
+  [Atom.cell, .ncell2d] ++ md.args.flatMap docMatrixMatrixArg
+
+/-! ### "Rules for Inter-Grid Kernels" -/
+
+/-- rule 6 -/
+def docInterGridSpace (md : Metadata) (fs : FS) : List Atom :=
+  if md.fineSpace fs then [Atom.ndf, .undf, .dofmapWhole] else [Atom.undf, .dofmap]
+
+/-- rules 1-6 -/
+def docInterGrid (md : Metadata) : List Atom :=
+  [Atom.nlayers, .cellMap, .ncpcX, .ncpcY, .ncellF] ++ md.args.flatMap docArg ++
+  (dedup (md.args.flatMap Arg.spaces)).flatMap (docInterGridSpace md)
+
+/-! ### "Rules for Domain Kernels": the general-purpose rules with `ncell_2d_no_halos` "as the second
+argument to the kernel (after nlayers)"; nothing else is said to differ (in particular the dofmap
+is still the rank-1 dofmap of rule 4.2.2) -/
+def docDomain (md : Metadata) : List Atom :=
+  [Atom.nlayers, .ncell2dNoHalos] ++ md.args.flatMap docArg ++
+  (dedup (md.args.flatMap Arg.spaces)).flatMap (docSpace md) ++
+  docRefElement md.refelem ++ docMesh md ++ docQuadrature md
+
+inductive DocSection | general | cmaAssembly | cmaApply | cmaMatrixMatrix | interGrid | domain
+  deriving DecidableEq, Repr
+
+/-- no basis functions, reference-element or mesh properties requested -/
+def Metadata.plain (md : Metadata) : Bool := md.funcs.isEmpty && md.shapes.isEmpty && md.refelem.isEmpty && md.mesh.isEmpty
+
+/-- which sub-section of the user guide gives the argument rules of this kernel -/
+def docSection (md : Metadata) : Option DocSection :=
+  if md.bc != .none || md.operatesOn == .dof then none
+  else if md.isIntergrid then
+    (if md.operatesOn == .cellColumn && !md.hasOperator && md.plain then some .interGrid else none)
+  else if md.operatesOn == .domain then (if !md.hasOperator && md.plain then some .domain else none)
+  else match md.cmaOp with
+    | .none => some .general
+    | .assembly => if md.plain then some .cmaAssembly else none
+    | .apply => if md.plain then some .cmaApply else none
+    | .matrixMatrix => if md.plain then some .cmaMatrixMatrix else none
+
 def docScope (md : Metadata) : Bool :=
   md.operatesOn == .cellColumn && !md.hasCma && !md.isIntergrid && md.bc == .none
 
+def docOrderOf (md : Metadata) : DocSection → List Atom
+  | .general => docGeneral md
+  | .cmaAssembly => docAssembly md
+  | .cmaApply => docApply md
+  | .cmaMatrixMatrix => docMatrixMatrix md
+  | .interGrid => docInterGrid md
+  | .domain => docDomain md
+
+/-- the documented argument list (all sub-sections) -/
+def docOrderAll (md : Metadata) : Option (List Atom) := (docSection md).map (docOrderOf md)
+
+/-- the documented argument list of a general-purpose kernel -/
 def docOrder (md : Metadata) : Option (List Atom) :=
-  if docScope md then
-    some ((if md.hasLma then [Atom.cell] else []) ++ [Atom.nlayers] ++
-          md.args.flatMap docArg ++
-          (dedup (md.args.flatMap Arg.spaces)).flatMap (docSpace md) ++
-          docRefElement md.refelem ++ docMesh md ++ docQuadrature md)
-  else none
+  if docScope md then some (docGeneral md) else none
 
 end C21
